@@ -19,7 +19,7 @@ import (
 	_ "verifharness/internal/props"
 )
 
-const stallS = 75
+const stallS = 120
 
 func seedFromEnv() int64 {
 	if s := os.Getenv("VERIF_SEED"); s != "" {
@@ -124,9 +124,9 @@ func main() {
 				fmt.Printf("replayed case killed the process (exit %d)\nVIOLATION property=%s replay=%s\n", code, *prop, *file)
 				os.Exit(1)
 			}
-		case <-time.After(150 * time.Second):
+		case <-time.After(240 * time.Second):
 			cmd.Process.Kill()
-			fmt.Printf("replayed case did not return within 150 s\nVIOLATION property=%s replay=%s\n", *prop, *file)
+			fmt.Printf("replayed case did not return within 240 s\nVIOLATION property=%s replay=%s\n", *prop, *file)
 			os.Exit(1)
 		}
 	case "replay-child":
